@@ -78,3 +78,12 @@ def PermanentChoiceOptionTouchedByIncompatibility(payload):
                 if _potential_from(g, [o]) & ends:
                     return True
     return False
+
+
+def holds_args(name, payload, args):
+    if name == 'EncoderImputer':
+        enc = payload.get('enc') or {}
+        idx = args.get('idx')
+        return (enc.get('kind') == args.get('kind') and (idx == '*' or enc.get('idx') in idx)
+                and args.get('imp') in ('*', enc.get('imp')))
+    return holds(name, payload)
